@@ -58,7 +58,8 @@ CHECKS = {
               "monotone-in-score and Bernoulli." + _B + "fitted models: distributions, reproducibility, determinism at 0/1, frequency bands, regression predictor frequencies.",
               note="Statistical quality of numpy's generator is assumed."),
     "C11": _c("P: scalar shape of selection_rate / mean_prediction for a single weighted row (all n>=1); lemma wsum.multiplicity (k copies, scaling, unit weights) over the weighted-sum "
-              "normal forms." + _B + "weight-k vs k-copies, scaling, ones-vs-omitted for the base metrics, inside MetricFrame per group and for the named metrics on small datasets."),
+              "normal forms; the weighted sum np.dot(., weights) of selection_rate / mean_prediction is accumulated in float64 whatever the dtype (kind) of the caller's weights "
+              "(dtype-width obligation, replayed with uint8 and float16 weights)." + _B + "weight-k vs k-copies, scaling, ones-vs-omitted for the base metrics, inside MetricFrame per group and for the named metrics on small datasets."),
     "C12": _c("P: _validate_and_reformat_input returns pandas objects with a default index built from label-free arrays (12 rank patterns, any sizes); index-provenance type-state over 18 "
               "entry points: no caller label reaches an aligning pandas operation." + _B + "every public result computed from lists vs every accepted container with shuffled/offset/"
               "duplicated/string index labels; row permutations; label bijections."),
@@ -66,10 +67,11 @@ CHECKS = {
               "(strings of any length over any alphabet); the validator merges iff >1 column; every moment, ThresholdOptimizer.fit and _pmf_predict obtain groups from that validator." +
               _B + "adversarial alphabets through _merge_columns, moments, ThresholdOptimizer fit/predict vs MetricFrame's partition.", extra=", Lean 4", category="proof"),
     "C14": _c("P: _get_labels_for_confusion_matrix for every number of distinct values x pos_label given/None x int/str; the four rates return their own cell of sklearn's row-normalised "
-              "confusion matrix with the caller's labels and weights; selection_rate/mean_prediction return a 0-d value for every n>=1." + _B + "all vectors up to n=3 (5 thorough) x 7 encodings "
+              "confusion matrix with the caller's labels and weights; selection_rate/mean_prediction return a 0-d value for every n>=1 and accumulate their weighted sum in float64 (dtype-width obligation)." + _B + "all vectors up to n=3 (5 thorough) x 7 encodings "
               "x weights against exact rationals.", note="Trusted: sklearn.metrics.confusion_matrix and numpy.unique contracts."),
     "C15": _c("P: CorrelationRemover.fit stores the per-column mean of the sensitive block and the least-squares coefficients on the column-centred block; transform is "
-              "alpha*(Z-(S-mean)beta)+(1-alpha)*Z cell by cell with the stored mean/coefficients, any shape; lemma cov.zero." + _B + "random/collinear/constant matrices vs lstsq on "
+              "alpha*(Z-(S-mean)beta)+(1-alpha)*Z cell by cell with the stored mean/coefficients, any shape; lemma cov.zero; _create_lookup rebuilds the column table from the X of this call whatever an earlier fit left (S: 1-3 columns), "
+              "_split_X (S); frame conditions incl. F3 (fit reads no fitted state before writing it)." + _B + "random/collinear/constant matrices vs lstsq on "
               "explicitly centred data, covariance at alpha=1, transform on fresh data.", note="Trusted: lstsq normal equations; _split_X contract (bounded)."),
     "C16": _c("S (all real values, bounded tensor shapes up to 3x2 quick / 4x2 thorough): the projected-gradient update block of the torch and tensorflow engines executed symbolically "
               "from the real source: exact formula with tiny>0 and Frobenius orthogonality for tiny=0; TF optimiser wiring (adversary follows its own plain gradient)." + _B +
@@ -78,7 +80,8 @@ CHECKS = {
               "_binary_predictor_function (>= threshold, classifier fixes 0.5), _set_predictor_function (arg-max one-hot, identity)." + _B + "recording backend over all small configurations; "
               "fit vs the same slices through partial_fit with torch; predict label space."),
     "C18": _c("P: generate_single_bootstrap_sample uses data.sample(frac=1, replace=True, random_state=seed, axis=0, ignore_index=True) and evaluates the metrics on that resample; "
-              "generate_bootstrap_samples produces exactly n_samples results, the k-th a function of (integer seed, k) - loop invariant for any n_samples." + _B + "ci result shapes, "
+              "generate_bootstrap_samples produces exactly n_samples results, the k-th a function of (integer seed, k) - loop invariant for any n_samples; _populate_results_ci / _group_ci write, for any number of resamples and quantiles, the interval list of each estimate (right aggregate, "
+              "method, control levels, errors='raise') into its own cache cell and the six *_ci readers return the cell of their own estimate and method behind the bootstrap guard." + _B + "ci result shapes, "
               "ordering in the quantile, reproducibility, count = n, constant metrics.", note="np.quantile monotonicity and the 'positive width' clause are bounded / observation only."),
     "C19": _c("P: frame conditions F1-F5 (no constructor parameter assigned, parameter objects not mutated, reads only parameters before writing, returns self, prediction writes nothing) "
               "for six estimator classes by a flow-sensitive effect analysis of the real ASTs; 5 obligations fail = the recorded known findings." + _B + "all call sequences up to length "
